@@ -13,7 +13,7 @@ DEFAULTS = dict(
     state_internal=0.3, sm_internal=0.3, completion=0.0, history=0.0, pseudo=0.0,
     deferral=0.0, flags=0.0, blocking=0.0, hierarchy_events=0.0, kleene=0.0,
     scripts=False, outer_rows_on_sub=0.8, policy='default', serialize=False,
-    subs_per_level=(1, 1), action_max=2,
+    subs_per_level=(1, 1), action_max=2, row_budget=18,
 )
 
 PROFILES = {
@@ -21,8 +21,8 @@ PROFILES = {
     'core_flat': dict(depth=(1, 1)),
     'hier': dict(depth=(2, 3), regions=(1, 2)),
     'completion': dict(completion=0.6, state_internal=0.0, sm_internal=0.0, depth=(1, 2)),
-    'history': dict(history=1.0, depth=(2, 2), state_internal=0.0, sm_internal=0.0, regions=(1, 3)),
-    'pseudo': dict(pseudo=1.0, history=0.4, depth=(2, 3), state_internal=0.0, sm_internal=0.0, regions=(1, 3)),
+    'history': dict(history=1.0, depth=(2, 2), row_budget=13, state_internal=0.0, sm_internal=0.0, regions=(1, 3)),
+    'pseudo': dict(pseudo=1.0, history=0.4, row_budget=10, states_per_region=(2, 2), depth=(2, 3), state_internal=0.0, sm_internal=0.0, regions=(1, 3)),
     'flags': dict(flags=1.0, depth=(1, 3), state_internal=0.0, sm_internal=0.0),
     'blocking': dict(blocking=1.0, depth=(1, 1), regions=(1, 3), flags=0.5, state_internal=0.0, sm_internal=0.0),
     'queue': dict(scripts=True, depth=(1, 2), regions=(1, 2), completion=0.2, state_internal=0.2, sm_internal=0.0),
@@ -130,7 +130,7 @@ class Gen:
             else:
                 k = r.choice(p['row_weights'])
             for _ in range(k):
-                if len(rows) >= MAX_ROWS - 2:
+                if len(rows) >= p['row_budget']:
                     break
                 reg = m['regions'][ri_]
                 if r.random() < p['internal_row']:
@@ -198,6 +198,8 @@ class Gen:
             self.add_flags(sp)
         if p['blocking'] > 0:
             self.add_blocking(sp)
+        if p['history'] > 0:
+            self.ensure_sub_cycles(sp)
         if p['pseudo'] > 0:
             self.add_pseudo(sp)
         if p['deferral'] > 0:
@@ -242,6 +244,33 @@ class Gen:
             # blocking states need no internal table
             m['states'][s].pop('internal', None)
 
+    def ensure_sub_cycles(self, sp):
+        """history needs enter/exit cycles: every submachine gets rows entering it on >= 2 distinct events (for shallow
+        history one listed and one not listed) and a row leaving it."""
+        r = self.r
+        events = [e['name'] for e in sp['events']]
+        for m, path in list(S.machines(sp)):
+            for sname in S.state_order(m):
+                st = m['states'][sname]
+                if st['kind'] != 'sub':
+                    continue
+                reg = m['regions'][S.region_of(m, sname)]
+                others = [x for x in reg if x != sname and m['states'][x]['kind'] == 'simple']
+                if not others:
+                    continue
+                h = st['machine'].get('history', 'none')
+                listed = h['shallow'] if isinstance(h, dict) else []
+                unlisted = [e for e in events if e not in listed] or events
+                want = [r.choice(listed)] if listed else [r.choice(events)]
+                want.append(r.choice(unlisted))
+                for ev in want:
+                    if len(m['table']) < MAX_ROWS:
+                        m['table'].insert(r.randint(0, len(m['table'])),
+                                          dict(src=r.choice(others), ev=ev, tgt=sname, guard=None, actions=self.actions()))
+                if len(m['table']) < MAX_ROWS:
+                    m['table'].insert(r.randint(0, len(m['table'])),
+                                      dict(src=sname, ev=r.choice(events), tgt=r.choice(others), guard=self.guard(), actions=self.actions()))
+
     def add_pseudo(self, sp):
         """explicit entry, fork, entry point, exit point on submachines."""
         r = self.r
@@ -253,7 +282,7 @@ class Gen:
                     continue
                 sub = st['machine']
                 oreg = m['regions'][S.region_of(m, sname)]
-                others = [x for x in oreg if x != sname]
+                others = [x for x in oreg if x != sname and m['states'][x]['kind'] in ('simple', 'explicit')]
                 if not others:
                     continue
                 kinds = ['explicit', 'fork', 'entry_pt', 'exit_pt']
@@ -310,6 +339,9 @@ class Gen:
                         fwd = r.choice(events)
                         sub['regions'][ri_].append(px)
                         sub['states'][px] = dict(kind='exit_pt', event=fwd)
+                        # an exit point is always the active state when its submachine is left: remembering it would
+                        # re-enter the pseudo state with an unrelated event (outside what any property describes)
+                        sub['history'] = 'none'
                         cands = [x for x in sub['regions'][ri_] if sub['states'][x]['kind'] in ('simple', 'explicit')]
                         sub['table'].append(dict(src=r.choice(cands), ev=inner_ev, tgt=px, guard=self.guard(), actions=self.actions()))
                         m['table'].append(dict(src=dict(exit_pt=[sname, px]), ev=fwd, tgt=r.choice(others), guard=None, actions=self.actions()))
